@@ -1,4 +1,4 @@
-import FluteModel.Lemmas.SchedShape
+import FluteModel.Lemmas.SchedPrio
 /-
   C13 - Scheduling: FIFO admission, multiplex bound (strict priority and round robin: see below).
   Interleave window (`open blocks ≤ interleave_blocks`, opened in increasing SBN) is a property of one
@@ -78,6 +78,38 @@ theorem slots_hold_distinct_transferring (cfg : Cfg) (tbl : List Nat) (ops : Lis
   let h := wf_run cfg tbl ops
   ⟨h.heldNodup, h.heldObj, h.transHeld⟩
 
+/-- Strict priority for transfers in progress, after every operation history: if a slot of priority queue `q`
+    holds a transfer whose next packet is due at `now` (pacing gate open, encoder neither drained nor stopped),
+    then `read(now)` returns an FDT packet or a packet of `q` or of a queue visited before `q` - never `None` and
+    never a packet of a queue after `q`.  With the configuration sorted by priority (`BTreeMap`): of priority
+    `≤ q.prio`.
+    PARTIAL with respect to the property clause: "ready" objects that are still WAITING (eligible by
+    `should_transfer_now`, a slot of their queue free) are not covered by this theorem (only by the engine's
+    oracle `C13:strict-priority`); the literal clause is moreover false for objects waiting behind the multiplex
+    bound (finding F23). -/
+theorem strict_priority_partial (cfg : Cfg) (tbl : List Nat) (ops : List Op) (pre post : List QSess) (q : QSess)
+    (j : Nat) (c : Cur) (f : FileDesc) (now : Nat) (ticks : List (Nat × Nat))
+    (hsorted : (cfg.queues.map (fun x => x.1)).Pairwise (fun a b => a < b))
+    (hsess : (run (init cfg tbl) ops).sessions = pre ++ q :: post)
+    (hjs : q.slots[j]? = some (some c)) (hf : getF (run (init cfg tbl) ops).objs c.key = some f)
+    (hg : gateBlocked f now = false) (hs : c.enc.stopped = false) (hlt : c.enc.sent < f.nPk) :
+    (read (run (init cfg tbl) ops) now ticks).2 ≠ Out.none ∧
+    ∀ p t i b, (read (run (init cfg tbl) ops) now ticks).2 = Out.pkt p t i b → p ≤ q.prio := by
+  obtain ⟨h1, h2⟩ := read_due cfg tbl ops pre post q j c f now ticks hsess hjs hf hg hs hlt
+  exact ⟨h1, fun p t i b e => prio_le_of_sorted cfg tbl ops pre post q hsorted hsess p (h2 p t i b e)⟩
+
+/-- Round robin, the mechanism: `read_priority_queue` polls the slots cyclically starting at `index`, the slot that
+    returned a packet is followed by `index := its successor`, and a slot with a due packet that lies between is
+    never skipped (`Lemmas/SchedPrio.readQueue_due`: with `rrDist index j n < steps` the due slot `j` is reached
+    unless an earlier slot of the same queue returned a packet).  Stated here for the index only.
+    PARTIAL: the trace-level clause ("between two consecutive packets of one slot every other slot with a due
+    packet emitted one") is checked by the engine's oracle `C13:round-robin`, not proved. -/
+theorem round_robin_partial (k : Nat) (s : State) (q : QSess) (now : Nat) (ticks : List (Nat × Nat))
+    (h : q.index < q.slots.length) :
+    (readQueue k s q now ticks).2.1.index < (readQueue k s q now ticks).2.1.slots.length ∧
+    ((readQueue k s q now ticks).2.1.prio, (readQueue k s q now ticks).2.1.slots.length) = (q.prio, q.slots.length) :=
+  ⟨readQueue_idx k s q now ticks h, readQueue_shape k s q now ticks⟩
+
 /-! non-vacuity: two objects multiplexed in one queue with 2 slots, a third one waiting -/
 def cfg2 : Cfg := { mode := .full, fdtCarousel := .delay 1000, fdtDuration := 3600000000000, fdtStartId := 1, queues := [(0, 2)] }
 def obj (n : Nat) : AddArgs := { prio := 0, nSym := n, maxCount := 1, carousel := none, start := none, target := none, allowStop := false }
@@ -85,5 +117,11 @@ def hist : List Op := [.add (obj 3), .add (obj 3), .add (obj 3), .publish 5, .re
 
 example : ((run (init cfg2 [1]) hist).objs.filter (fun f => f.prio == 0 && f.info.transferring)).length = 2 := by decide
 example : (run (init cfg2 [1]) hist).queue = [3] := by decide
+
+/-- non-vacuity of `strict_priority_partial`: queue 0 holds a transfer with packets left, its gate is open -/
+example : ∃ q c f, (run (init cfg2 [1]) hist).sessions = [] ++ q :: [] ∧ q.slots[0]? = some (some c) ∧
+    getF (run (init cfg2 [1]) hist).objs c.key = some f ∧ gateBlocked f 5 = false ∧ c.enc.stopped = false ∧
+    c.enc.sent < f.nPk := by
+  refine ⟨_, _, _, rfl, rfl, rfl, ?_, ?_, ?_⟩ <;> decide
 
 end Flute.Props.C13
